@@ -594,6 +594,9 @@ PINNED_PAIRS = {
     ("list[int]", "list[bool]"),
     ("seq[int]", "list[bool]"),
     ("vtuple[int]", "tuple[int,str]"),
+    ("mapping[str,lit[$p0]]", "td[$f1,False,lit[$p1]]"),
+    ("dict[str,int]", "td[$f1,False,int]"),
+    ("mapping[str,int]", "td2[int,str,$f1]"),
 }
 
 
